@@ -37,6 +37,13 @@ for (l, mask, tier) in ((65, 1, 'quick'), (0, 7, 'quick'), (65, 0, 'thorough'), 
          cap=1200, mem=14, desc='skip_option over the three optional supports of a serialized BitVector (%d bits, supports %d) lands exactly on the next value' % (l, mask),
          shape={'len': l, 'written_supports': mask})
 
+for (l, tier) in ((7, 'quick'), (100, 'quick'), (600, 'thorough')):
+    for value in (False, True):
+        inst(['C19', 'C06'], 'c19_uniform_l%d_%s' % (l, 'ones' if value else 'zeros'), 'c19::uniform(%d, %s)' % (l, 'true' if value else 'false'), tier=tier, unwind=max(l, 64) + 4,
+             unwindset={r'memcmp': 600}, cap=900, mem=10,
+             desc='uniform BitVector (%d bits, all %d): every support built, written, loaded; == and rank/select/select_zero for a symbolic argument (the only shape where loaded select supports have concrete sizes)' % (l, 1 if value else 0),
+             shape={'len': l, 'bits': 'all ones' if value else 'all zeros'})
+
 extra(P, assumptions=['real RankSupport / SelectSupport construction (both on the original and on the loaded copy); R2 allocation stubs where a SelectSupport is built',
                       'embedding structures loading from support-free parts: C04 (wavelet matrix), C02/C07 (sparse) use specification stubs that fail when a needed support was never enabled'],
       options={'no_reach': True},
